@@ -117,11 +117,11 @@ def run(ctx):
         x = int_bytes(v)
         text = (v % 97 == 0) if quick else (v % 31 == 0)
         ident_unary(x, text)
-        if v % (5 if quick else 1) == 0 or abs(v) > 32760 or abs(v) < 20:
+        if v % (7 if quick else 1) == 0 or abs(v) > 32760 or abs(v) < 20:
             ident_binary(x, [rng.choice('isd')] if quick else ['i', 's', 'd'], text)
 
     # ---- float operands ----------------------------------------------------------
-    nflt = max(10, int(ctx.pick(7000, 150000) * scale))
+    nflt = max(10, int(ctx.pick(5000, 150000) * scale))
     for t in ('s', 'd'):
         for i in range(nflt):
             x = rand_float(rng, t)
@@ -130,7 +130,7 @@ def run(ctx):
             ident_binary(x, [t, rng.choice('isd')] if quick else ['i', 's', 'd'], text)
         # every exponent byte with a few mantissas (sweeps the underflow/overflow ends of x*1, x/1, x+0)
         for eb in range(0, 256):
-            for mant in ([0, 0, 0], [255, 255, 127], [1, 0, 0]):
+            for mant in (([0, 0, 0], [255, 255, 127]) if quick else ([0, 0, 0], [255, 255, 127], [1, 0, 0])):
                 for sign in (0, 128):
                     m = list(mant) if t == 's' else [mant[0]] * 5 + list(mant[1:])
                     m[-1] |= sign
@@ -172,7 +172,7 @@ def run(ctx):
             y = negated(y)
         return x, y
 
-    ncomm = max(10, int(ctx.pick(5000, 100000) * scale))
+    ncomm = max(10, int(ctx.pick(4000, 100000) * scale))
     for tx in 'isd':
         for ty in 'isd':
             for _ in range(ncomm):
